@@ -19,9 +19,17 @@ the plain arrays is *not applicable* (not counted); everything else must give
   ``outer`` with a non-element operand on discretized elements).
 
 Further sections: the legacy ``x.ufuncs.<name>()`` namespaces (tensor, discretized, product
-space), the no-copy wrapping / ``asarray`` round trip, the base-class ``Tensor.__array_ufunc__``
-and the H-part: every sequence of two in-place operations (``ufunc.at``, ``out=x``) against an
-ndarray mirror.
+space; judged clause: agreement with the NumPy call on the same elements), the no-copy
+wrapping / ``asarray`` round trip, the base-class ``Tensor.__array_ufunc__`` and the H-part:
+every sequence of two (thorough: three) in-place operations (``ufunc.at``, ``out=x``, legacy
+``out=``) against an ndarray mirror.
+
+Reporting: a failing combination is named by site = class[method;option tags] and symptom.
+Inside a state only failures with a minimal option set are kept, and each is then localised
+differentially (delta debugging with fixed simplest values): the same case is re-executed with
+a plain ufunc, with float64 and on the plain kind; a dimension is named in the site only when
+its simplest value does not show the symptom.  So one defect gives one site however many
+ufuncs / dtypes / kinds expose it, and the site stays stable from run to run.
 
 Nothing is sampled; the seed only permutes the visiting order of the states.
 """
@@ -807,10 +815,6 @@ def run_case(ctx, uf, method, ops, outspec, kw, ref0=None, extra_tags=()):
 # ------------------------------------------------------------------------------------------
 # per-section alphabets
 
-def _tier_full(tier):
-    return tier == 'thorough'
-
-
 def _dtype_kws(ctx, full):
     lst = DTYPE_KW[ctx.dt]
     return [{'dtype': d} for d in (lst if full else lst[:1])]
@@ -949,9 +953,13 @@ def sec_reduce(ctx, uf, full):
             kw['where'] = _mask(ctx.shape)
             run_case(ctx, uf, 'reduce', ops, 'none', kw)
             run_case(ctx, uf, 'reduce', ops, outs[-1], kw)
-    # second fill, default options
+    # second fill, default options (thorough: the whole axis alphabet)
     run_case(ctx, uf, 'reduce', [('E', 'b2')], 'none', {})
     run_case(ctx, uf, 'reduce', [('E', 'a2')], 'none', {'axis': None})
+    if full:
+        for ax in _axis_alphabet(ctx.ndim, full):
+            run_case(ctx, uf, 'reduce', [('E', 'a2')], 'none', dict(ax))
+            run_case(ctx, uf, 'reduce', [('E', 'b2')], 'ndarray', dict(ax))
 
 
 def sec_accumulate(ctx, uf, full):
@@ -1524,7 +1532,6 @@ def _hist_ops(ctx):
     n1 = len(np.zeros(ctx.shape)[i1])
     v1 = fill(ctx.dt, (n1,), 'b1')
     sc = SCALAR[ctx.dt]
-    leg = ctx.family  # all families have .ufuncs
     ops = [
         ('add.at(x,i1,v)', lambda x, y: np.add.at(x, i1, v1.copy())),
         ('multiply.at(x,i2,s)', lambda x, y: np.multiply.at(x, i2, sc)),
@@ -1537,17 +1544,17 @@ def _hist_ops(ctx):
         ('square(x,out=x)', lambda x, y: np.square(x, out=x)),
         ('multiply.at(y,i1,v)', lambda x, y: np.multiply.at(y, i1, v1.copy())),
     ]
-    return ops, leg
+    return ops
 
 
 def sec_hist(ctx, full):
-    ops, _ = _hist_ops(ctx)
+    ops = _hist_ops(ctx)
     legacy = [('x.ufuncs.add(y,out=x)', lambda x, y: x.ufuncs.add(y, out=x),
                lambda x, y: np.add(x, y, out=x)),
               ('y.ufuncs.square(out=y)', lambda x, y: y.ufuncs.square(out=y),
                lambda x, y: np.square(y, out=y))]
     allops = [(n, f, f) for n, f in ops] + legacy
-    depth = 3 if full and ctx.ndim == 1 else 2
+    depth = 3 if full and ctx.ndim <= 2 else 2
     ax = fill(ctx.dt, ctx.shape, 'a1')
     ay = fill(ctx.dt, ctx.shape, 'b1')
     for seq in itertools.product(range(len(allops)), repeat=depth):
@@ -1810,7 +1817,8 @@ def meta(tier):
             'methods': ['__call__', 'reduce', 'accumulate', 'outer', 'at', 'reduceat'],
             'kinds x dtypes': ['%s/%s' % p for p in kd],
             'kinds': dict((k, '%s %s' % (KINDS[k][0], KINDS[k][1])) for k in KIND_ORDER),
-            'fills per operand': 2, 'history depth': 2 if tier == 'quick' else '2 (3 in 1-d)',
+            'fills per operand': 2,
+            'history depth': 2 if tier == 'quick' else '3 (2 for 3-d elements)',
             'axis': 'absent, None, every int of both signs, every subset as a tuple, mixed-sign '
                     'tuples',
             'dtype keyword': DTYPE_KW,
